@@ -296,6 +296,9 @@ def _sibling_set_status(sd: ast.AST, tree_p: str, deme_v: str, selfn: str, want_
     _bool_atoms(actual, atoms)
     if atoms <= known:
         return VIOLATION, f"sibling activity filter is `{' and '.join(norm(c) for c in conds)}`; expected {'sibling.is_active' if want_filter == 'active' else 'sibling.is_active or not self.check_only_active'}: some configured sibling is not compared with"
+    # a deme can be active and asleep at the same time (that is what hibernation is): the flag is independent of is_active
+    if atoms <= known | {"S._hibernating"}:
+        return VIOLATION, f"sibling filter is `{' and '.join(norm(c) for c in conds)}`: a sleeping deme is still active, yet candidates are not compared with its centroid"
     return INCONCLUSIVE, f"cannot decide whether the sibling filter `{' and '.join(norm(c) for c in conds)}` keeps every configured sibling"
 
 
@@ -309,6 +312,9 @@ def _far_enough_filter(ctx: Ctx, cls_name: str, helper_name: str, want_filter: s
     cand_p, tree_p = f.params()[1], f.params()[2]
     # outer loop over parents
     outer = [n for n in body_walk(f.node) if isinstance(n, ast.For) and norm(n.iter) in (f"{cand_p}.keys()", cand_p, f"list({cand_p}.keys())", f"list({cand_p})")]
+    if len(outer) > 1:
+        # loops that only assert a precondition are not the filter
+        outer = [n for n in outer if not all(isinstance(b, (ast.Assert, ast.Pass)) for b in n.body)]
     if len(outer) != 1:
         return [ctx.ob("R09.3", f, f.node, status=INCONCLUSIVE, detail=f"{cls_name}: cannot find the loop over candidate parents", construct="outer-loop")]
     deme_v = outer[0].target.id if isinstance(outer[0].target, ast.Name) else None
